@@ -147,11 +147,12 @@ package scanner
 //@     s.gOpen == openKind(f) && 0 <= s.gFree && s.gFree <= i
 //@     && imp(s.gOpen != 0, s.gFree <= s.gOpenAt && s.gOpenAt <= i)
 //@     && imp(needsKw(f), s.gFree >= 1)
+//@     && imp(f != stateRoot, s.dataSize >= 1)
 //@     && imp(f == stateAnnotationSign2, s.gFree + 1 <= i)
 //@     && imp(needsBodyChar(f), s.gOpenAt + 1 <= i)
 //@ pred scanOK(s *Scanner, f stepFunc, i int) :=
 //@     ite(isComment(f) || f == stateSingleComment,
-//@         len(s.stepStack) >= 1 && posOK(s, s.stepStack[len(s.stepStack)-1], i),
+//@         len(s.stepStack) >= 1 && s.dataSize >= 1 && posOK(s, s.stepStack[len(s.stepStack)-1], i),
 //@         posOK(s, f, i))
 //@ pred fileOK(s *Scanner) := s.file != nil && s.dataSize == len(s.data.data) && len(s.file.content.data) == s.dataSize
 //@     && cap(s.file.content.data) >= s.dataSize
@@ -445,13 +446,16 @@ package scanner
 //@ extern (*github.com/jsightapi/jsight-schema-core/rules/enum.Enum).Len(e)
 //@   attr deterministic nopanic
 //@   ensures imp(result1 == nil, result0 <= e.gSrcLen)
+// errLimit(e): length of the file an error of the schema library was converted for (assumed: its Index() lies inside it)
+//@ opaque fn errLimit(ref int) int
 //@ extern github.com/jsightapi/jsight-schema-core/kit.ConvertError(f, err)
 //@   attr pure deterministic nopanic
-//@   ensures result != nil
+//@   ensures result != nil && errLimit(result.ref) == len(f.content.data)
 //@ extern (github.com/jsightapi/jsight-schema-core/kit.Error).Message(e)
 //@   attr pure deterministic nopanic
 //@ extern (github.com/jsightapi/jsight-schema-core/kit.Error).Index(e)
 //@   attr pure deterministic nopanic
+//@   ensures result <= errLimit(e.ref)
 //@ extern (github.com/jsightapi/jsight-schema-core/bytes.Bytes).SubToEndOfLine(b, start)
 //@   attr pure deterministic nopanic
 //@ extern github.com/jsightapi/jsight-api-core/directive.IsStartWithDirective(b)
